@@ -41,8 +41,6 @@ eb.ctor_defaults = {"tf": None, "switching_beams": ()}
 pd = shape("_PhaseDriftParams", drift_rate="real", ti="int")
 pd.ctor_fields = ["drift_rate", "ti"]
 
-shape("WeightMap", weights=("list", "real"))
-shape("DetuningMap", bases=("WeightMap",))
 
 cs = shape("_ChannelSchedule", channel_id="str", channel_obj=("ref", "Channel"),
            slots=(("list", ("ref", "_TimeSlot")), M),
@@ -102,4 +100,6 @@ declare_heap_fields()
 
 # --- register/_coordinates.py (C19) ----------------------------------------------
 shape("CoordsCollection", _rounded_coords=("ref", "Obj"))
+shape("WeightMap", bases=("CoordsCollection",), weights=("list", "real"))
+shape("DetuningMap", bases=("WeightMap",))
 declare_heap_fields()
